@@ -11,9 +11,10 @@ from mirsym.values import Adt, clone_val, PyVec, BoxV, Some, NONE, Bytes
 from mirsym.models.core import val_eq, z_and, z_all, z_any, z_not
 from .common import get_interp, show, tasks_eq, ref_apply
 from .cloudworld import CloudWorld
-from .syncworld import SyncWorld
+from .syncworld import SyncWorld, judge_convergence
 
 PROPERTY = 'C11'
+REPLAY_RETRIES = 2
 LEVEL = 'fault_enumeration'
 
 
@@ -65,11 +66,13 @@ class Harness:
         res = sync(0)
         handles[0].fault = None
         inj = state['inj']
-        w.history[-1]['fault'] = inj
+        if inj is not None:
+            w.history[-1]['fault'] = {'layer': 'service', 'nth': inj[3], 'how': inj[2], 'request': inj[0]}
 
         def wit(m):
             d = w.witness(m)
             d['fault'] = inj
+            d['kind'], d['server'] = 'sync', 'cloud'
             return d
         if inj is None:
             c.cover('fault-free baseline')
@@ -82,6 +85,7 @@ class Harness:
                 c.cover('fault tolerated by the server')
         # --- after restart: fresh server handles, the other replica makes a change, everybody syncs
         srv = [server_for(0, 'b'), server_for(1, 'b')]
+        w.history.append({'new_handles': True})
         w.do_commit(1, 1)
         for r in (1, 0, 1, 0):
             res = sync(r)
@@ -122,9 +126,57 @@ class Harness:
                 return None
         out = {'fault': inj, 'versions': nver}
         if c.want_sample:
+            m = c.get_model()
+            if m is not None:
+                out['scenario'] = wit(m)
+                out['predicted'] = {'replicas': [w.concrete_tasks(r, m) for r in (0, 1)], 'versions': nver}
             out['_encoded'] = sorted(I.encoded)
             out['_modelled'] = sorted(I.modelled)
         return out
+
+
+def replay_scenario(v):
+    return v['witness']
+
+
+def _problems(out):
+    """property C11 on the compiled crate: after the interrupted sync everybody can go on synchronizing, the chain can be
+    walked to `latest`, and the replicas converge to the chain as served"""
+    probs = []
+    steps = out.get('steps', [])
+    after = False
+    for i, st in enumerate(steps):
+        if st.get('new_handles'):
+            after = True
+        elif after and 'err' in st:
+            probs.append({'step': i, 'err': st['err']})
+    srv = out.get('server', {})
+    if srv.get('walk_error'):
+        probs.append({'walk_error': srv['walk_error']})
+    if srv.get('latest_is_end_of_walk') is False:
+        probs.append({'latest_is_end_of_walk': False})
+    probs += [p for p in judge_convergence(dict(out, steps=[])) if 'step' not in p]
+    if 'panic' in out:
+        probs.append({'panic': out['panic']})
+    return probs
+
+
+def replay_judge(scn, out, v):
+    p = _problems(out)
+    return bool(p), p[:3]
+
+
+def validate_samples(sample, out):
+    p = _problems(out)
+    if p:
+        return False, p[:3]
+    pred = sample['predicted']['replicas']
+    real = [r['tasks'] for r in out.get('replicas', [])]
+    if real != pred:
+        return False, {'predicted': pred, 'real': real}
+    if len(out.get('server', {}).get('versions', [])) != sample['predicted']['versions']:
+        return False, {'predicted_versions': sample['predicted']['versions'], 'real_versions': len(out['server']['versions'])}
+    return True, None
 
 
 def required_covers(tier):
@@ -142,7 +194,7 @@ ASSUMPTIONS = [
     'claimed for the object-store backend only: the local backend (SQLite statements) and the git backend (sub-processes) cannot be executed symbolically',
     'fault kinds per Service request: error before the request takes effect; request carried out and then an error (covers a lost reply and a process stop right after the request); "restart" = fresh CloudServer values over the same store',
     'implicit cleanup disabled here (C10), Service contract and ring primitives modelled, JSON as injective codec, in-memory replica storage',
-    'counterexamples are judged by the engine (no public-API path to CloudServer)',
+    'replay: commits, syncs, the fault (n-th Service request of the interrupted sync, before/after) and the restart are run on the compiled Replica + CloudServer over the hook in-memory object store, and judged by the same rule (later syncs succeed, chain walkable to latest, replicas equal the chain as served)',
 ]
 EXPLANATION = ('the fault point is forked at every Service request the interrupted sync makes; afterwards z3 must refute: a later sync '
                'failing, latest not reachable by walking the chain, a replica differing from the replay of the chain as served')
